@@ -651,11 +651,18 @@ pub fn run_mode(ctx: &Ctx, rep: &mut Report, mode: &str) {
     {
         let t0 = TRef::Issued(0);
         let t1 = TRef::Issued(1);
-        for ops in [
+        for (k, ops) in [
             vec![Op::Initiate("RB"), Op::Required(t0), Op::Load(t0, "F1"), Op::Load(t0, "F2B"), Op::Required(t0), Op::Emit(t0), Op::Free(t0)],
             vec![Op::Initiate("R1"), Op::Load(t0, "F1"), Op::Load(t0, "F2B"), Op::Load(t0, "F2"), Op::Load(t0, "F2B"), Op::Emit(t0), Op::Initiate("RB"), Op::Free(t0), Op::Emit(t1), Op::Free(t1)],
             vec![Op::Initiate("RB"), Op::Free(t0), Op::Initiate("RB"), Op::Load(t1, "F2B"), Op::Free(t1)],
-        ] {
+        ]
+        .into_iter()
+        .enumerate()
+        {
+            // (the interpreter is slow: its processes share the three histories between them)
+            if mode == "miri" && ctx.nshards >= 3 && k as u64 != ctx.shard % 3 {
+                continue;
+            }
             run_one(&ops, rep, true);
             rep.count("scripted_scenarios|byte-order-mark-sources");
         }
